@@ -121,6 +121,18 @@ CLAIMED = {
              "assumed, crashes of a lock holder are not modelled; asyncio.Lock's hand-over to the first waiter is assumed as modelled.",
         technique="Coq invariant proofs over interleavings + trace replay against real locks in real processes",
         ref="7/C15"),
+    "C16": dict(
+        text="Theorems C16_download (for EVERY value length, every mailbox size >= 24, subindex or complete access: the messages sdo_write produces make a "
+             "strict ETG.1000.6 SDO server - which aborts on wrong sizes or toggle bits - store exactly the value; induction over the segment sequence), "
+             "C16_upload (sdo_read applied to the server's responses returns exactly the value, requested toggles alternate from 0), C16_fits (every mailbox "
+             "message fits). Tied to the code by running the real sdo_write/sdo_read through the real mbx_send/mbx_recv/roundtrip/sendloop against a strict "
+             "Python SDO server behind simulated mailbox sync managers: the CoE payloads sent by the client and the responses of the server are compared "
+             "byte for byte with the Coq client and server; boundary lengths for several mailbox sizes, delays, unrelated mail.",
+        note=TB + "Modelled: the message sequence of sdo_write and the assembly of sdo_read (Ecat/Sdo.v), positive responses only. The SDO server / mailbox "
+             "behaviour (harness/sim_mailbox.py and its Coq twin) is written from ETG.1000.6 and trusted. Unrelated mail is only tolerated before the first "
+             "upload response (the client raises otherwise; not covered).",
+        technique="Coq proof of client||server composition by induction over segments + byte-exact differential correspondence",
+        ref="7/C16"),
 }
 
 REASONS_NOT_YET = "no check built yet in this round (planned, see DESIGN.md section 7); nothing is claimed for it"
